@@ -74,8 +74,16 @@ fn conv_struct(s: &varlink_parser::VStruct) -> Fields {
 }
 
 impl Idl {
-    /// the REAL parser's verdict: Ok(ast) | Err("parse") | Err("idl")
+    /// the REAL parser's verdict: Ok(ast) | Err("parse") | Err("idl") | Err("panic") (the parser must never panic:
+    /// the harness survives it and reports it)
     pub fn parse(text: &str) -> Result<Idl, &'static str> {
+        match std::panic::catch_unwind(|| Idl::parse_inner(text)) {
+            Ok(r) => r,
+            Err(_) => Err("panic"),
+        }
+    }
+
+    fn parse_inner(text: &str) -> Result<Idl, &'static str> {
         match varlink_parser::IDL::try_from(text) {
             Err(varlink_parser::Error::Parse { .. }) => Err("parse"),
             Err(varlink_parser::Error::Idl(_)) => Err("idl"),
